@@ -27,14 +27,17 @@ META = dict(
     text="Every history of the alphabet up to the depth bound is executed on the real Aggregator, message handlers, dispatcher and "
          "repositories; an aggregator restart builds a new Aggregator on the same SQLite database. After every transition the run id "
          "held for the re-registered engine, the destination of newly persisted tag rows and the RecentRun rows are compared with what "
-         "the engine did. Exhaustive within the bound, at every point of the run where a disconnect or restart can be inserted.",
+         "the engine did. A second, shallower exploration adds a second run id (run_started/run_stopped of r2); runs during which a "
+         "run_stopped of another run id was delivered are left to C30. Exhaustive within the bound, at every point of the run where a disconnect or restart can be inserted.",
     note="Graceful restart only (Aggregator.shutdown and dispatcher.shutdown run; a hard crash, where no RecentEngine row is written, is "
          "outside the statement as read here). One engine, one run id, one tag, tag times increasing by more than the interval. "
          "Tag recording is only demanded once uod_info was resent after the re-registration.",
 )
 
 PREFIX = ("reg", "conn", "uod")
-ALPHABET = ("rs1", "tA+6", "stop1", "disc", "reg", "conn", "uod", "restart", "bounce")   # bounce = disc+reg+conn+uod in one step
+ALPHABET = ("rs1", "tA+6", "stop1", "disc", "reg", "conn", "uod", "restart", "bounce")
+# second exploration (shallower): a second run id, e.g. a new run started while the aggregator still holds the restored first one
+ALPHABET2 = ALPHABET + ("rs2", "stop2")   # bounce = disc+reg+conn+uod in one step
 RUN = "r1"
 
 
@@ -54,7 +57,9 @@ def check_step(obs, i, stats=None):
                     f"engine expects {post['registered']}/{post['connected']}"))
     # (a) same run, same run id, whenever the engine is registered again during its run
     r = post["eng_run"]
-    if r is not None and post["registered"] and post["interrupts"].get(r):
+    # (a run during which a run_stopped of ANOTHER run id was delivered is stored and reset early by the aggregator: that is
+    # the known C30 finding 'foreign run_stopped', not a reconnect problem; such runs are left to C30)
+    if r is not None and post["registered"] and post["interrupts"].get(r) and r not in post["misclosed"]:
         if stats is not None:
             stats["a"] += 1
         if agg["run"] != r:
@@ -74,7 +79,7 @@ def check_step(obs, i, stats=None):
                             f"engine's active run again (it would be stored a second time when the next run starts)"))
     # (b) tag data of the run arriving after the reconnect
     sent = rec["sent"]
-    if sent and sent["run"] is not None and pre["interrupts"].get(sent["run"]):
+    if sent and sent["run"] is not None and pre["interrupts"].get(sent["run"]) and sent["run"] not in pre["misclosed"]:
         r = sent["run"]
         for row in rec["new_rows"]:
             if row[2] != r:
@@ -99,7 +104,7 @@ def check_step(obs, i, stats=None):
     # (c) stored once when it stops
     if ev.startswith("stop") and rec["reply"] == "SuccessMessage":
         r = "r" + ev[-1]
-        if pre["eng_run"] == r and pre["interrupts"].get(r) and r not in pre["reopened"]:   # a run_started resent after the stop is C30
+        if pre["eng_run"] == r and pre["interrupts"].get(r) and r not in pre["reopened"] and r not in pre["misclosed"]:   # a run_started resent after the stop is C30
             if stats is not None:
                 stats["c"] += 1
             n = H.count_by_run(rec["db"]["recent_runs"]).get(r, 0)
@@ -145,10 +150,15 @@ def run(ctx):
 
     ex = H.Explorer(ctx, _worker, PREFIX, ALPHABET, depth).run(on_result)
     ctx.note(f"[C28] depth={depth} states={ex.states} transitions={ex.transitions} per_level(transitions,new states)={ex.per_level} checks={tot}")
+    depth2 = 5 if ctx.quick else 8
+    ex2 = H.Explorer(ctx, _worker, PREFIX, ALPHABET2, depth2).run(on_result)
+    ctx.note(f"[C28] two run ids: depth={depth2} states={ex2.states} transitions={ex2.transitions} checks={tot}")
     if not (tot["a"] and tot["b"] and tot["c"]):
         raise HarnessError(f"vacuous: an oracle was never evaluated {tot}")
     ctx.coverage.update(
-        states=ex.states, transitions=ex.transitions, traces_validated_against_impl=ex.transitions,
+        states=ex.states + ex2.states, transitions=ex.transitions + ex2.transitions,
+        traces_validated_against_impl=ex.transitions + ex2.transitions,
+        second_exploration=dict(alphabet=list(ALPHABET2), depth=depth2, states=ex2.states, transitions=ex2.transitions),
         evaluations=tot["a"] + tot["b"] + tot["c"], distinct_nontrivial=info["nontrivial"],
         run_id_checks=tot["a"], tag_recording_checks=tot["b"], tag_updates_where_the_text_is_silent=tot["b_silent"], stored_once_checks=tot["c"],
         interruption_kinds_seen=sorted("+".join(k) for k in info["kinds"]),
